@@ -12,43 +12,43 @@
 (***************************************************************************)
 EXTENDS FieldAlg, TLC, FiniteSets
 
-VARIABLES kind, a, b
+VARIABLES mKind, mA, mB
 
 FP   == 0..(P - 1)
 C2   == CHOOSE r \in FP : (r * r) % P = 1         \* Z = -1 (non-square since p = 3 mod 4), c2 = sqrt(-Z) = sqrt(1)
 ZZ   == P - 1
 
-Init == \/ kind = "pair" /\ a \in FP /\ b \in FP
-        \/ kind = "wide" /\ a \in 0..(TwoW * TwoW - 1) /\ b = 0
-Next == kind' = "done" /\ kind # "done" /\ UNCHANGED <<a, b>>
+Init == \/ mKind = "pair" /\ mA \in FP /\ mB \in FP
+        \/ mKind = "wide" /\ mA \in 0..(TwoW * TwoW - 1) /\ mB = 0
+Next == mKind' = "done" /\ mKind # "done" /\ UNCHANGED <<mA, mB>>
 
 HasRoot(x) == \E r \in FP : (r * r) % P = x
 
-PairInv == kind = "pair" =>
-  /\ FAdd(a, b) \in FP /\ FSub(a, b) \in FP /\ FMul(a, b) \in FP /\ FNeg(a) \in FP
-  /\ FAdd(FSub(a, b), b) = a
-  /\ FAdd(a, FNeg(a)) = 0
-  /\ FSqr(a) = FMul(a, a)
-  /\ (a # 0 => FMul(a, FInv(a)) = 1) /\ FInv(0) = 0 /\ InvAlg(a) = FInv(a)
-  /\ (FIsSquare(a) <=> HasRoot(a))                                         \* Euler's criterion is the declarative notion
-  /\ FIsOdd(a) = (a % 2 = 1)
-  /\ FPow2k(a, 1) = FSqr(a) /\ FPow2k(a, 3) = FSqr(FSqr(FSqr(a)))
+PairInv == mKind = "pair" =>
+  /\ FAdd(mA, mB) \in FP /\ FSub(mA, mB) \in FP /\ FMul(mA, mB) \in FP /\ FNeg(mA) \in FP
+  /\ FAdd(FSub(mA, mB), mB) = mA
+  /\ FAdd(mA, FNeg(mA)) = 0
+  /\ FSqr(mA) = FMul(mA, mA)
+  /\ (mA # 0 => FMul(mA, FInv(mA)) = 1) /\ FInv(0) = 0 /\ InvAlg(mA) = FInv(mA)
+  /\ (FIsSquare(mA) <=> HasRoot(mA))                                         \* Euler's criterion is the declarative notion
+  /\ FIsOdd(mA) = (mA % 2 = 1)
+  /\ FPow2k(mA, 1) = FSqr(mA) /\ FPow2k(mA, 3) = FSqr(FSqr(FSqr(mA)))
   \* sqrt / sqrt_ratio algorithms satisfy the relations used to judge the implementation
-  /\ LET s == SqrtAlg(a, C2) IN SqrtOK(a, s[1], s[2])
-  /\ LET s == SqrtRatioAlg(a, b, C2) IN SqrtRatioOK(a, b, ZZ, s[1], s[2])
+  /\ LET s == SqrtAlg(mA, C2) IN SqrtOK(mA, s[1], s[2])
+  /\ LET s == SqrtRatioAlg(mA, mB, C2) IN SqrtRatioOK(mA, mB, ZZ, s[1], s[2])
   \* and the relations pin the flag: no other flag value is acceptable
-  /\ LET s == SqrtAlg(a, C2) IN ~SqrtOK(a, s[1], 1 - s[2])
-  /\ (b # 0 => LET s == SqrtRatioAlg(a, b, C2) IN ~SqrtRatioOK(a, b, ZZ, s[1], 1 - s[2]))
+  /\ LET s == SqrtAlg(mA, C2) IN ~SqrtOK(mA, s[1], 1 - s[2])
+  /\ (mB # 0 => LET s == SqrtRatioAlg(mA, mB, C2) IN ~SqrtRatioOK(mA, mB, ZZ, s[1], 1 - s[2]))
   \* decoding of the W-byte string with value a + (b % 2) * ... : use v = a and v = a + P when it fits
-  /\ \A v \in {a, a + P} : v < TwoW =>
+  /\ \A v \in {mA, mA + P} : v < TwoW =>
         /\ ReduceSaturated(v, P) = FDecode(v)
         /\ FDecode(v)[1] = v % P /\ (FDecode(v)[2] = 1 <=> v >= P)
         /\ (FDecodeCanonical(v)[1] = "ok" <=> v < P)
 
-WideInv == kind = "wide" =>
-  /\ FWideReduce(a) = a % P
-  /\ WideReduceAlg(a, 6 * W) = a % P          \* split at 3/4 of the element width, as 192 of 256 bits
-  /\ (a < TwoW => ReduceSaturated(a, P) = FDecode(a))
+WideInv == mKind = "wide" =>
+  /\ FWideReduce(mA) = mA % P
+  /\ WideReduceAlg(mA, 6 * W) = mA % P          \* split at 3/4 of the element width, as 192 of 256 bits
+  /\ (mA < TwoW => ReduceSaturated(mA, P) = FDecode(mA))
 
 ASSUME TwoW < 2 * P      \* one conditional subtraction suffices, as for the real p
 =============================================================================
